@@ -10,6 +10,7 @@ package couchbase
 //@ modifies nothing
 
 //@ func (*healthCheck).performHealthCheck
+//@ params h ctx
 //@ props C19 C13
 //@ requires h != nil && h.client != nil && ctx != nil
 //@ let P = couchbase.Client.Ping
@@ -25,12 +26,14 @@ package couchbase
 //@ modifies calls(couchbase.Client.Ping), calls(select.case), chan(uninterp("ctx.done", ctx))
 
 //@ func (*healthCheck).Start
+//@ params h
 //@ props C19
 //@ requires h != nil
 //@ ensures.once[C19] calls("go:couchbase.(*healthCheck).run") <= 1
 //@ modifies calls("go:couchbase.(*healthCheck).run"), h.cancelFunc
 
 //@ func (*healthCheck).run
+//@ params h ctx
 //@ props C19 C13
 //@ requires h != nil && h.config != nil && h.client != nil && ctx != nil
 //@ loop 1
@@ -40,6 +43,7 @@ package couchbase
 //@ modifies calls(couchbase.Client.Ping), calls(select.case), chan(uninterp("ctx.done", ctx)), calls("couchbase.(*healthCheck).performHealthCheck")
 
 //@ func (*healthCheck).Stop
+//@ params h
 //@ props C19 C13
 //@ requires h != nil
 //@ ensures.once[C19,C13] calls("field:couchbase.healthCheck.cancelFunc") <= 1
